@@ -240,6 +240,13 @@ def _key_field_stores(body):
                 kind = "other"
                 if s.get("k") == "agg" and s.get("adt") == "core::option::Option":
                     kind = s["variant"]
+                elif s.get("k") == "use" and s.get("ops"):
+                    l = cfg.op_local(s["ops"][0])
+                    if l is not None:
+                        for blk in body.blocks:
+                            for s2 in blk["s"]:
+                                if s2.get("d") == str(l) and s2.get("k") == "agg" and s2.get("adt") == "core::option::Option":
+                                    kind = s2["variant"]
                 out.append((j, kind))
     return out
 
